@@ -87,13 +87,13 @@ class C15(Prop):
                 reads = r["reads"] or []
                 sizes = C.llit("(zn %d)" % x["size"] for x in reads)
                 ob = C.llit("(%d, %s)" % ({"": 0, "decode": 1, "closed": 2}.get(x.get("err", ""), 3), C.llit(str(b) for b in hexbytes(x["data"]))) for x in reads)
-                if any(len(f["data"]) > 2100 for f in (r["frames"] or [])):
+                if sum(len(f["data"]) for f in (r["frames"] or [])) > 2600:
                     continue   # very long frames are covered by the oracle and the bridge run; keep the Coq file small
                 items.append("read_case_ok %s %s %s" % (frames, sizes, ob))
                 rows.append(r)
             else:
                 for w, f in zip(r["writes"], r["frames"] or []):
-                    if len(w) > 2100:
+                    if len(w) > 600:
                         continue
                     items.append("write_case_ok %s %s" % (C.llit(str(b) for b in hexbytes(w)), C.llit(str(ord(c)) for c in f["data"])))
                     rows.append({"write": w[:80], "frame": f["data"][:80]})
